@@ -306,17 +306,29 @@ def _check_bisect(case, ctx):
         # (other targets) must behave exactly like one with fresh copies of the values they held
         def again(lo_, up_):
             t2 = raw(((snap[0] + snap[1]) / 2) + torch.zeros(shape, dtype=snap[0].dtype))  # root = middle of the original bracket
+            n2 = {"n": 0}
+
+            def counted(x):  # the second search must terminate like the first
+                n2["n"] += 1
+                if n2["n"] > max_iter + 4:
+                    raise _Runaway()
+                return raw(x)
             try:
-                return "value", bisect(raw, t2, lo_, up_, **kw)
+                return "value", bisect(counted, t2, lo_, up_, **kw)
             except RuntimeError as exc:
                 if "max_iter" not in str(exc):
                     raise
                 return "maxiter", None
             except ValueError:
                 return "valueerror", None
-        with ctx.sut("C19/bisect"):
-            o_reused, r_reused = again(lower, upper)
-            o_fresh, r_fresh = again(snap[0].clone(), snap[1].clone())
+        try:
+            with ctx.sut("C19/bisect"):
+                o_reused, r_reused = again(lower, upper)
+                o_fresh, r_fresh = again(snap[0].clone(), snap[1].clone())
+        except _Runaway:
+            ctx.fail("C19/bisect/termination", f"a second search evaluated fn more than max_iter+4={max_iter + 4} times: no error, still iterating",
+                     max_iter=max_iter, precision=precision)
+            return
         same = o_reused == o_fresh and (r_reused is None or (r_reused.shape == r_fresh.shape and bool(((r_reused == r_fresh) | (r_reused.isnan() & r_fresh.isnan())).all())))
         ctx.check(same, "C19/bisect/bracket-reuse",
                   f"a second search with the same bracket tensors gives {o_reused} {None if r_reused is None else r_reused.flatten()[:3].tolist()} but "
